@@ -3,7 +3,7 @@
 ENGINES = [
     {'name': 'verus-contracts', 'path': 'tools/check.py + tools/extract.py + contracts/ + spec/ + units/',
      'serves_properties': [],
-     'kind_free_text': 'Verus 0.2026.09.13 on functions re-extracted verbatim from /repo/src on every run, with requires/ensures/invariant/decreases injected from contracts/*.vc; rewrite rules R1-R8 are the only textual changes (DESIGN.md 3.1)'},
+     'kind_free_text': 'Verus 0.2026.09.13 on functions re-extracted verbatim from /repo/src on every run, with requires/ensures/invariant/decreases injected from contracts/*.vc; rewrite rules R1-R13 are the only textual changes (DESIGN.md 3.1, 8.1, 8.10)'},
     {'name': 'kani-harnesses', 'path': 'kani/ + tools/run_kani.py',
      'serves_properties': [],
      'kind_free_text': 'Kani 0.68 / CBMC 6.11 harnesses on the real crate (path dependency) for the static-mut globals and float/integer arithmetic kernels'},
@@ -53,20 +53,21 @@ CLAIMED = {
         'design_ref': 'DESIGN.md 5/C10',
     },
     'C12': {
-        'text': 'BOUNDED stand-in, not a proof. evaluate_add / subtract / multiply / divide are run on the real crate against the documented left-to-right fold (i64 with truncating division when all arguments are integers, '
-                'f64 with integers converted when any is a float; results compared bit for bit): all 1- and 2-argument lists over a pool of 20 extreme values, seeded lists of 3-4 arguments given literally, through bound variables and through variable chains, '
-                'and 2-operand infix forms through the parser. Contract-based verification could not reach these functions: Verus leaves exec float arithmetic unspecified and rejects the iterator closures; '
-                'the Kani harnesses written for them (one per type shape, kani/src/arith.rs) exhaust memory in CBMC.',
-        'note': 'Bounded: about 4300 distinct cases per run (seeded by VERIF_SEED); integer overflow and integer division by zero are skipped as outside the claim. The unification of the value with the other operand is proved under C13.',
-        'technique': 'bounded enumeration on the real code (stand-in where neither installed verifier reaches)',
-        'category': 'exploration',
-        'engine': 'replay',
-        'design_ref': 'DESIGN.md 5/C12 and 8',
+        'text': 'Deductive proof (Verus) on the verbatim bodies of evaluate_add, evaluate_subtract, evaluate_multiply, evaluate_divide and their argument pipeline get_numbers / get_integers / get_floats '
+                '(rule R13 writes the two `.iter().fold(init, |mut acc, &x| {acc op= x; acc})` calls of each function as the loop Iterator::fold is defined as): for ground numeric arguments - any number of them, '
+                'reached through variable chains of any length - the result is the left-to-right fold of the argument values in argument order, starting from 0 (add), 1 (multiply) or the first argument (subtract, divide); '
+                'an SInteger computed on mathematical integers with truncating division, every partial result required to fit in 64 bits (overflow and zero divisors are outside the claim), exactly when no argument is a float; '
+                'otherwise an SFloat computed with the f64 operators on the arguments with every integer converted. The f64 operators and the integer-to-float cast are uninterpreted total functions in the proof '
+                '(that they are the IEEE-754 operations is not provable in Verus); a BOUNDED enumeration (labelled bounded, never counted) compares with Rust\'s own operators bit for bit, also through the infix parser.',
+        'note': 'Trusted: T6 (f64 + - * / and `i as f64` are deterministic total functions of their operands; axiom_f64_arith_is_a_function, i64_to_f64), T4 (rewrite R13 = core\'s definition of Iterator::fold for slice iterators), T1, T2, T5. '
+                'Not covered: subtract()/divide() with no argument (Vec::remove(0) panics), the infix parser (string level, bounded only). The unification of the value with the other operand is proved under C13.',
+        'technique': 'contract-based deductive verification (Verus) of extracted real code',
+        'design_ref': 'DESIGN.md 5/C12 and 8.10',
     },
     'C13': {
         'text': 'Deductive proof (Verus): unify carries the postcondition post_function - when one operand is a built-in function term the result satisfies the whole clause set (upost) of unifying '
                 "the function's value with the other operand, on either side and for function/function pairs; unify_sfunction is proved against the same clause set in unit functions.",
-        'note': 'Trusted: fn_value is uninterpreted (defined as what evaluate_* returns; those use iterator closures and floats, outside Verus; their arithmetic is checked by Kani under C12); T1, T2, T4, T5.',
+        'note': 'Trusted: fn_value is uninterpreted (defined as what evaluate_* returns; those use iterator closures and floats, outside Verus; their values are proved to be the documented folds under C12); T1, T2, T4, T5.',
         'technique': 'contract-based deductive verification (Verus) of extracted real code',
         'design_ref': 'DESIGN.md 5/C13',
     },
